@@ -6,6 +6,7 @@ import Driver.Util
 import Driver.Recv
 import Driver.Core
 import Driver.Mpd
+import Driver.Fault
 /-! Line-protocol driver: one operation per input line, one canonical result per output line. -/
 open Drv
 
@@ -95,6 +96,8 @@ def step (st : DState2) (line : String) : DState2 × String :=
   | "seg" :: args => (st, opSeg st.core args)
   | "mpddef" :: args => defMpd st args
   | "mpd" :: args => (st, opMpd st args)
+  | "loss" :: args => (st, opLoss args)
+  | "stat" :: args => (st, opStat st.core args)
   | _ => (st, "bad-op")
 
 partial def loop (h : IO.FS.Stream) (out : IO.FS.Stream) (st : DState2) : IO Unit := do
